@@ -524,6 +524,9 @@ def c07_alphabet(g, slots):
         A.append(g.create(slot, g.shape(fn=F1, mk1='EQ', tform='RT', nse=1), obj=0, k1=2, lo=1, hi=1))
         A.append(g.create(slot, g.shape(fn=F2, mk1='EQ', mk2='ANY', tform='FORBID'), obj=0, k1=1))
         A.append(g.create(slot, g.shape(fn=F1, mk1='ANY', tform='FORBID', nwith=1), obj=0, wmode=(2, 0, 0)))            # FORBID_CALL(...).WITH(_1 != 2)
+        A.append(g.create(slot, g.shape(fn=F1, mk1='ANY', tform='FORBID', nwith=2), obj=0, wmode=(3, 2, 0)))            # FORBID_CALL(...).WITH(_1 >= 1).WITH(_1 != 2): every condition counts
+        A.append(g.create(slot, g.shape(mock='MV', fn=F1, mk1='ANY', tform='FORBID'), obj=2))                            # on a movable mock: the stack of expectations follows the object
+        A.append(g.create(slot, g.shape(mock='MV', fn=F1, mk1='EQ', tform='ALLOW', nse=1), obj=2, k1=1))
         A.append(g.create(slot, g.shape(fn=F1, mk1='EQ', tform='FORBID', vform=True), obj=0, k1=1))                     # the variadic macro forms
         A.append(g.create(slot, g.shape(fn=F1, mk1='ANY', tform='FORBID', nwith=1, vform=True), obj=0, wmode=(2, 0, 0)))  # NAMED_FORBID_CALL_V(m, f(_), .WITH(_1 != 2))
         A.append(g.create(slot, g.shape(fn=F1, mk1='LT', tform='ALLOW', nse=1, vform=True), obj=0, k1=2))
@@ -532,6 +535,7 @@ def c07_alphabet(g, slots):
         A.append(g.create(slot, g.shape(fn=F1, mk1='ANY', tform='RT', seqar=1, nse=1), obj=0, lo=0, hi=INF, s1=0))
         A.append(g.release(slot))
     A += [g.call(0, F1, a) for a in (0, 1, 2)] + [g.call(0, F2, 1, 2), g.call(0, F2, 0, 2), g.call(0, G1, 1)]
+    A += [g.call(2, F1, 1), g.call(3, F1, 1), g.call(3, F1, 2), g.op(OP_MOVE_MOCK, obj=2, k1=3), g.op(OP_MOVE_MOCK, obj=3, k1=2)]
     return A
 
 
